@@ -159,6 +159,16 @@ class Ctx(object):
                 self.violations.append(v)
                 continue
             except hypothesis.errors.HypothesisException as x:
+                if "viol" in last and isinstance(x, (hypothesis.errors.Flaky, hypothesis.errors.FlakyFailure)):
+                    # the violation was observed against the real code, but did not repeat when hypothesis replayed the
+                    # case (state left behind by the first run, timing): still a violation, marked as not reproducible
+                    v = last["viol"]
+                    v.case = last["case"]
+                    v.what = "[not reproducible on immediate replay] " + v.what
+                    found.add(v.signature)
+                    self.violations.append(v)
+                    self.classes["flaky-violation"] += 1
+                    continue
                 raise HarnessError("hypothesis: %r" % (x,))
             break
 
@@ -326,8 +336,17 @@ def main_check(modname, tier, seed, replay=None):
         import multiprocessing
         mpctx = multiprocessing.get_context("spawn")
         nproc = min(len(jobs), int(os.environ.get("VERIF_JOBS", "16")))
-        with mpctx.Pool(nproc, maxtasksperchild=1) as pool:
-            outs = pool.map(_run_shard, jobs, chunksize=1)
+        hard = getattr(mod, "HARD_LIMIT_S", {"quick": 900, "thorough": 3 * 3600})[tier]
+        pool = mpctx.Pool(nproc, maxtasksperchild=1)
+        try:
+            outs = pool.map_async(_run_shard, jobs, chunksize=1).get(timeout=hard)
+            pool.close()
+        except multiprocessing.TimeoutError:
+            pool.terminate()
+            sys.stderr.write("HARNESS ERROR in %s: shards did not finish within the hard limit of %d s (inconclusive, not a verdict)\n" % (prop, hard))
+            return 2
+        finally:
+            pool.join()
     for status, payload in outs:
         if status == "ok":
             results.append(payload)
